@@ -444,16 +444,24 @@ func allFormats(c *vh.Ctx, m *monitor, e *duckEnv, app *fiber.App, q string, key
 // overflowing ones are known findings with their own keys and are exercised by duckCase)
 var safeDecimalExprs = []sqlExpr{
 	{"decimal", func(k int) string { return fmt.Sprintf("sum((%s %% 1000)::INTEGER) OVER (ORDER BY i)", h(k)) }},
-	{"hugeint", func(k int) string { return fmt.Sprintf("((%s >> 2)::HUGEINT * (CASE WHEN i %% 2 = 0 THEN 1 ELSE -1 END))", h(k)) }},
+	{"hugeint", func(k int) string {
+		return fmt.Sprintf("((%s >> 2)::HUGEINT * (CASE WHEN i %% 2 = 0 THEN 1 ELSE -1 END))", h(k))
+	}},
 	{"decimal", func(k int) string { return fmt.Sprintf("((%s %% 1000000)::BIGINT)::DECIMAL(9,0)", h(k)) }},
-	{"decimal", func(k int) string { return fmt.Sprintf("(((%s %% 2000001)::BIGINT - 1000000) * 0.001)::DECIMAL(12,3)", h(k)) }},
-	{"float64", func(k int) string { return fmt.Sprintf("avg((%s %% 1000)::DECIMAL(9,2)) OVER (ORDER BY i ROWS 3 PRECEDING)", h(k)) }},
+	{"decimal", func(k int) string {
+		return fmt.Sprintf("(((%s %% 2000001)::BIGINT - 1000000) * 0.001)::DECIMAL(12,3)", h(k))
+	}},
+	{"float64", func(k int) string {
+		return fmt.Sprintf("avg((%s %% 1000)::DECIMAL(9,2)) OVER (ORDER BY i ROWS 3 PRECEDING)", h(k))
+	}},
 	{"int64", func(k int) string { return fmt.Sprintf("(%s >> 3)::BIGINT", h(k)) }},
 }
 
 var lowCardExprs = []sqlExpr{
 	{"utf8", func(k int) string { return fmt.Sprintf("'host_' || (i %% %d)::VARCHAR", 2+k%9) }},
-	{"utf8", func(k int) string { return fmt.Sprintf("CASE WHEN i %% 11 = 3 THEN NULL ELSE 'r\"' || (%s %% 5)::VARCHAR END", h(k)) }},
+	{"utf8", func(k int) string {
+		return fmt.Sprintf("CASE WHEN i %% 11 = 3 THEN NULL ELSE 'r\"' || (%s %% 5)::VARCHAR END", h(k))
+	}},
 	{"utf8", func(k int) string { return "CASE i % 3 WHEN 0 THEN 'eu-west' WHEN 1 THEN 'é' ELSE '' END" }},
 }
 
